@@ -71,6 +71,11 @@ def run(ctx):
                 ctx.violation("c19_image_%d.txt" % nviol,
                               "crash point: %d complete writes + %d bytes (%s)\n%s\n\nscript:\n%s\n\nimplementation (after image): %s\n" % (k, j, kind, bad, script, ";".join(r["out"])[:2500]),
                               "repaired image (k=%d, j=%d): %s" % (k, j, bad[:160]), sig=sig)
+    # byte-exact repair-on-open model (coq/RepairModel.v, extracted) vs the implementation: return code, complete backend log and the
+    # resulting file of two consecutive opens per image; defect classes carry signatures, everything else is a violation
+    RP = importlib.import_module("RP")
+    nviol += RP.run_rp(ctx, n=(4 if ctx.tier == "quick" else 30), per_program=(40 if ctx.tier == "quick" else 120), cycle=False)
+    dist.update({"rp_" + k: v for k, v in ctx.extra.get("distribution", {}).items()})
     ctx.extra["distribution"] = dist
     ctx.cov["rule"] = ("(a) closed files of writer programs (as C17) hashed before opening, after a shuffled mix of every reader call (definitions, lengths, windows incl. "
                        "out-of-range, statistics, annotations, UTC, user data, time conversion, undefined signal) and after a second open: all three hashes equal; "
